@@ -6,7 +6,9 @@
  *     characters themselves are not part of the argument; inside it blanks are literal;
  *   - a backslash (inside or outside quotes) makes the next character literal (a literal blank does not separate);
  *     a backslash at the end of the input is an error (runtime_error), so is an unterminated quoted region;
- *   - an argument starts with its first literal character (so an empty quoted region alone produces no argument).
+ *   - an argument starts with its first literal character or with an opening quote, as in a shell: an empty quoted
+ *     region ('' or "") is an (empty) argument of its own or contributes nothing to the argument it is glued to
+ *     (C17: "tokenised like a shell would"; the pinned tree dropped such arguments - fixed in /repo, see known_findings.json).
  * Every byte value, including NUL, is an ordinary literal character. */
 #include "harness.h"
 int64_t w_split_args(uint8_t* s, uint64_t n, uint64_t* lens, uint64_t max_pieces, uint8_t* bytes, uint64_t cap);
@@ -28,7 +30,7 @@ void harness(void) {
       if (c == quote) quote = 0;
       else if (c == '\\') { if (i + 1 >= LEN) err = 1; else { lit = s[++i]; have = 1; } }
       else { lit = c; have = 1; }
-    } else if (c == '"' || c == '\'') quote = c;
+    } else if (c == '"' || c == '\'') { quote = c; if (!in_arg) { rlens[rcount++] = 0; in_arg = 1; } }
     else if (c == '\\') { if (i + 1 >= LEN) err = 1; else { lit = s[++i]; have = 1; } }
     else { lit = c; have = 1; separable = 1; }
     if (!have) continue;
